@@ -1,5 +1,4 @@
-import Bee2V.C11.Math
-import Bee2V.C05.PropsAlias
+import Bee2V.C11.LemmasMath
 /-
 C11 — math headers (ww.h, zz.h, pp.h): "the output buffer either coincides with or is disjoint from each
 input".  18 functions are proved in Bee2V/C05/PropsAlias.lean (named in `Bee2V.C11.covered`); the
@@ -7,35 +6,6 @@ remaining ones here, on the same word-addressed memory, for every base address a
 -/
 namespace Bee2V.C11.Math
 open Bee2V.C05 Bee2V.C05.Alias
-
-/-- pointwise form of the descending element-wise loop under the header's precondition -/
-theorem elem2Desc_apply (f : Nat → Nat → Nat) (c a b : Nat) : ∀ (n : Nat) (m : Mem) (j : Nat),
-    SameOrDisj c a n → SameOrDisj c b n →
-    elem2Desc f c a b n m j = if c ≤ j ∧ j < c + n then f (m (a + (j - c))) (m (b + (j - c))) else m j := by
-  intro n
-  induction n with
-  | zero =>
-    intro m j _ _
-    have : ¬ (c ≤ j ∧ j < c + 0) := by omega
-    simp only [elem2Desc, this, if_false]
-  | succ n ih =>
-    intro m j ha hb
-    have ha' : SameOrDisj c a n := by unfold SameOrDisj Disj at *; omega
-    have hb' : SameOrDisj c b n := by unfold SameOrDisj Disj at *; omega
-    rw [elem2Desc, ih _ _ ha' hb']
-    unfold SameOrDisj Disj at ha hb
-    by_cases h1 : c ≤ j ∧ j < c + n
-    · have h2 : c ≤ j ∧ j < c + (n + 1) := by omega
-      have ea : a + (j - c) ≠ c + n := by omega
-      have eb : b + (j - c) ≠ c + n := by omega
-      simp only [h1, h2, and_self, if_true, write_other _ _ _ _ ea, write_other _ _ _ _ eb]
-    · by_cases h3 : j = c + n
-      · have h2 : c ≤ j ∧ j < c + (n + 1) := by omega
-        rw [if_neg h1, if_pos h2, h3, write_same]
-        have e : c + n - c = n := by omega
-        rw [e]
-      · have h2 : ¬ (c ≤ j ∧ j < c + (n + 1)) := by omega
-        simp only [h1, h2, if_false, write_other _ _ _ _ h3]
 
 /-- ww.h `wwXor` ("Буфер c либо не пересекается, либо совпадает с каждым из буферов a, b"): every word of c
     is the XOR of the ORIGINAL words of a and b; nothing else changes.  (a, b may overlap each other freely.) -/
@@ -77,23 +47,6 @@ theorem wwCopy_alias (b a n : Nat) (m : Mem) (h : SameOrDisj b a n) :
 /-- the hypothesis matters: a descending copy one word DOWN over itself smears the top word -/
 example : wwCopyMem 0 1 3 (ofList [1, 2, 3, 4] 0) 1 ≠ 3 ∧ ¬ SameOrDisj 0 1 3 := by decide
 
-theorem pure1_ppMulW (w x : Nat) : ∀ (l : List Nat) (c : Nat), pure1 (ppMulWStep w x) c l = ppMulWLoop w x l c := by
-  intro l
-  induction l with
-  | nil => intro c; simp [pure1, ppMulWLoop]
-  | cons a as ih => intro c; simp [pure1, ppMulWLoop, ppMulWStep, ih]
-
-theorem pure2_ppAddMulW (w x : Nat) : ∀ (bs as : List Nat) (c : Nat),
-    pure2 (ppAddMulWStep w x) c bs as = ppAddMulWLoop w x bs as c := by
-  intro bs
-  induction bs with
-  | nil => intro as c; simp [pure2, ppAddMulWLoop]
-  | cons b bs ih =>
-    intro as c
-    cases as with
-    | nil => simp [pure2, ppAddMulWLoop]
-    | cons a as => simp [pure2, ppAddMulWLoop, ppAddMulWStep, ih]
-
 /-- pp.h `ppMulW` (b the same as or disjoint from a): b and the carry word are C05's list function of the
     ORIGINAL a -/
 theorem ppMulW_alias (w b a n x : Nat) (m : Mem) (h : SameOrDisj b a n) :
@@ -114,5 +67,135 @@ theorem ppAddMulW_alias (w b a n x : Nat) (m : Mem) (h : SameOrDisj b a n) :
   exact this
 
 example : readN (ppMulWMem 8 0 0 2 3 (ofList [5, 129] 0)).1 0 2 = (ppMulW 8 [5, 129] 3).1 := by decide
+
+/-! ### zz.h zzAdd3 -/
+
+/-- the unequal-length half of zzAdd3: `wwCopy(c + k, a + k, n - k); carry = zzAdd(c, a, b, k);
+    zzAddW2(c + k, n - k, carry)` with c[n] the same as or disjoint from a[n] and from b[k] (k ≤ n) -/
+theorem zzAdd3_long (w c a n b k : Nat) (m : Mem) (hk : k ≤ n)
+    (ha : c = a ∨ c + n ≤ a ∨ a + n ≤ c) (hb : c = b ∨ c + n ≤ b ∨ b + k ≤ c) :
+    let m1 := wwCopyMem (c + k) (a + k) (n - k) m
+    let r := zzAddMem w c a b k m1
+    let q := zzAddWMem w (c + k) (c + k) (n - k) r.2 r.1
+    let r' := zzAdd w ((readN m a n).take k) (readN m b k)
+    let r2 := zzAddW w ((readN m a n).drop k) r'.2
+    readN q.1 c n = r'.1 ++ r2.1 ∧ q.2 = r2.2 ∧ ∀ j, (j < c ∨ c + n ≤ j) → q.1 j = m j := by
+  intro m1 r q r' r2
+  have hc := wwCopy_alias (c + k) (a + k) (n - k) m (by unfold SameOrDisj Disj; omega)
+  have hadd := zzAdd_alias w c a b k m1 (by unfold SameOrDisj Disj; omega) (by unfold SameOrDisj Disj; omega)
+  have haw := zzAddW_alias w (c + k) (c + k) (n - k) r.2 r.1 (Or.inl rfl)
+  have e1 : readN m1 a k = readN m a k :=
+    readN_congr _ _ _ _ (fun j h1 h2 => hc.2 j (by omega))
+  have e2 : readN m1 b k = readN m b k :=
+    readN_congr _ _ _ _ (fun j h1 h2 => hc.2 j (by omega))
+  have e3 : readN r.1 (c + k) (n - k) = readN m (a + k) (n - k) := by
+    have : readN m1 (c + k) (n - k) = readN m (a + k) (n - k) := readN_ext _ _ _ _ _ hc.1
+    rw [← this]
+    exact readN_congr _ _ _ _ (fun j h1 h2 => hadd.2.2 j (by omega))
+  have hr' : r' = zzAdd w (readN m1 a k) (readN m1 b k) := by
+    simp only [r', e1, e2, readN_take _ _ _ _ hk]
+  have hr2 : r2 = zzAddW w (readN r.1 (c + k) (n - k)) r.2 := by
+    show zzAddW w ((readN m a n).drop k) r'.2 = _
+    rw [readN_drop _ _ _ _ hk, e3, hr', ← hadd.2.1]
+  have hsplit := readN_append q.1 c k (n - k)
+  rw [show k + (n - k) = n by omega] at hsplit
+  refine ⟨?_, ?_, ?_⟩
+  · rw [hsplit]
+    congr 1
+    · rw [readN_congr r.1 q.1 c k (fun j h1 h2 => haw.2.2 j (by omega)), hadd.1, hr']
+    · rw [haw.1, hr2]
+  · rw [haw.2.1, hr2]
+  · intro j hj
+    exact (haw.2.2 j (by omega)).trans ((hadd.2.2 j (by omega)).trans (hc.2 j (by omega)))
+
+/-- the same with the operands of zzAdd in the other order (the `n < m` branch): `wwCopy(c + k, a + k, n - k); carry = zzAdd(c, a, b, k);
+    zzAddW2(c + k, n - k, carry)` with c[n] the same as or disjoint from a[n] and from b[k] (k ≤ n) -/
+theorem zzAdd3_long' (w c a n b k : Nat) (m : Mem) (hk : k ≤ n)
+    (ha : c = a ∨ c + n ≤ a ∨ a + n ≤ c) (hb : c = b ∨ c + n ≤ b ∨ b + k ≤ c) :
+    let m1 := wwCopyMem (c + k) (a + k) (n - k) m
+    let r := zzAddMem w c b a k m1
+    let q := zzAddWMem w (c + k) (c + k) (n - k) r.2 r.1
+    let r' := zzAdd w (readN m b k) ((readN m a n).take k)
+    let r2 := zzAddW w ((readN m a n).drop k) r'.2
+    readN q.1 c n = r'.1 ++ r2.1 ∧ q.2 = r2.2 ∧ ∀ j, (j < c ∨ c + n ≤ j) → q.1 j = m j := by
+  intro m1 r q r' r2
+  have hc := wwCopy_alias (c + k) (a + k) (n - k) m (by unfold SameOrDisj Disj; omega)
+  have hadd := zzAdd_alias w c b a k m1 (by unfold SameOrDisj Disj; omega) (by unfold SameOrDisj Disj; omega)
+  have haw := zzAddW_alias w (c + k) (c + k) (n - k) r.2 r.1 (Or.inl rfl)
+  have e1 : readN m1 a k = readN m a k :=
+    readN_congr _ _ _ _ (fun j h1 h2 => hc.2 j (by omega))
+  have e2 : readN m1 b k = readN m b k :=
+    readN_congr _ _ _ _ (fun j h1 h2 => hc.2 j (by omega))
+  have e3 : readN r.1 (c + k) (n - k) = readN m (a + k) (n - k) := by
+    have : readN m1 (c + k) (n - k) = readN m (a + k) (n - k) := readN_ext _ _ _ _ _ hc.1
+    rw [← this]
+    exact readN_congr _ _ _ _ (fun j h1 h2 => hadd.2.2 j (by omega))
+  have hr' : r' = zzAdd w (readN m1 b k) (readN m1 a k) := by
+    simp only [r', e1, e2, readN_take _ _ _ _ hk]
+  have hr2 : r2 = zzAddW w (readN r.1 (c + k) (n - k)) r.2 := by
+    show zzAddW w ((readN m a n).drop k) r'.2 = _
+    rw [readN_drop _ _ _ _ hk, e3, hr', ← hadd.2.1]
+  have hsplit := readN_append q.1 c k (n - k)
+  rw [show k + (n - k) = n by omega] at hsplit
+  refine ⟨?_, ?_, ?_⟩
+  · rw [hsplit]
+    congr 1
+    · rw [readN_congr r.1 q.1 c k (fun j h1 h2 => haw.2.2 j (by omega)), hadd.1, hr']
+    · rw [haw.1, hr2]
+  · rw [haw.2.1, hr2]
+  · intro j hj
+    exact (haw.2.2 j (by omega)).trans ((hadd.2.2 j (by omega)).trans (hc.2 j (by omega)))
+
+/-- zz.h `zzAdd3` ("Буфер c либо не пересекается, либо совпадает с каждым из буферов a, b"; c has max(n, k)
+    words): for every base address and all lengths the sum and the carry are C05's list function
+    `zzAdd3` of the ORIGINAL a[n], b[k]; nothing outside c changes. -/
+theorem zzAdd3_alias (w c a n b k : Nat) (m : Mem)
+    (ha : c = a ∨ c + max n k ≤ a ∨ a + n ≤ c) (hb : c = b ∨ c + max n k ≤ b ∨ b + k ≤ c) :
+    readN (zzAdd3Mem w c a n b k m).1 c (max n k) = (zzAdd3 w (readN m a n) (readN m b k)).1
+    ∧ (zzAdd3Mem w c a n b k m).2 = (zzAdd3 w (readN m a n) (readN m b k)).2
+    ∧ ∀ j, (j < c ∨ c + max n k ≤ j) → (zzAdd3Mem w c a n b k m).1 j = m j := by
+  by_cases h1 : n > k
+  · have hm : max n k = n := by omega
+    rw [hm] at ha hb ⊢
+    have := zzAdd3_long w c a n b k m (by omega) (by omega) (by omega)
+    simp only [zzAdd3Mem, zzAdd3, readN_length, h1, if_true, zzAddW2]
+    exact this
+  · by_cases h2 : n < k
+    · have hm : max n k = k := by omega
+      rw [hm] at ha hb ⊢
+      have := zzAdd3_long' w c b k a n m (by omega) (by omega) (by omega)
+      simp only [zzAdd3Mem, zzAdd3, readN_length, h1, h2, if_true, if_false, zzAddW2]
+      exact this
+    · have hk : k = n := by omega
+      subst hk
+      have hm : max k k = k := by omega
+      rw [hm] at ha hb ⊢
+      simp only [zzAdd3Mem, zzAdd3, readN_length, h1, if_false]
+      exact zzAdd_alias w c a b k m (by unfold SameOrDisj Disj; omega) (by unfold SameOrDisj Disj; omega)
+
+example : readN (zzAdd3Mem 8 0 0 3 3 1 (ofList [255, 255, 1, 7] 0)).1 0 3 = (zzAdd3 8 [255, 255, 1] [7]).1 := by decide
+
+
+
+/-! ### the 18 functions proved by C05 (Bee2V/C05/PropsAlias.lean) — referenced here: renaming or removing one of them
+    makes this file fail (the names are listed in `Bee2V.C11.covered`) -/
+example := @zzAdd_alias
+example := @zzSub_alias
+example := @zzAdd2_alias
+example := @zzSub2_alias
+example := @zzAddW_alias
+example := @zzSubW_alias
+example := @zzNeg_alias
+example := @zzMulW_alias
+example := @zzAddMulW_alias
+example := @zzSubMulW_alias
+example := @zzDivW_alias
+example := And.intro @zzAddMod_safe_alias @zzAddMod_fast_alias
+example := And.intro @zzSubMod_safe_alias @zzSubMod_fast_alias
+example := And.intro @zzAddWMod_safe_alias @zzAddWMod_fast_alias
+example := And.intro @zzSubWMod_safe_alias @zzSubWMod_fast_alias
+example := And.intro @zzNegMod_safe_alias @zzNegMod_fast_alias
+example := And.intro @zzDoubleMod_safe_alias @zzDoubleMod_fast_alias
+example := And.intro @zzHalfMod_safe_alias @zzHalfMod_fast_alias
 
 end Bee2V.C11.Math
